@@ -34,7 +34,10 @@ class Contract:
         self.noreturn = noreturn
         self.note = note
 
-    def text(self, canary=False):
+    def text(self, canary=False, ret='__CPROVER_return_value'):
+        return self._text(canary).replace('$RET', ret)
+
+    def _text(self, canary=False):
         out = []
         for r in self.requires:
             out.append('__CPROVER_requires(%s)' % r)
@@ -468,7 +471,7 @@ def build_job_c(job, kern, canary=False):
         i = tr.funcs[n]
         if n in repl and n != tgt:
             # body not needed; contract on a prototype
-            protos_extra.append('%s\n%s;' % (i['header'], repl[n].text()))
+            protos_extra.append('%s\n%s;' % (i['header'], repl[n].text(ret=ret_expr(tr, i))))
             continue
         if i.get('stub'):
             stubs.append(stub_body(i, i['stub']))
@@ -479,7 +482,7 @@ def build_job_c(job, kern, canary=False):
             pass
         text = tr.bodies[n]
         if n == tgt:
-            text = text.replace('/*CONTRACT:%s*/' % i['cname'], contract.text(canary=canary and job.canary == 'ensures'))
+            text = text.replace('/*CONTRACT:%s*/' % i['cname'], contract.text(canary=canary and job.canary == 'ensures', ret=ret_expr(tr, i)))
         else:
             inlined.append(i['demangled'])
         bodies.append(text)
@@ -496,6 +499,36 @@ def build_job_c(job, kern, canary=False):
     parts = [tr.head, hdecl, defs, SIGNAL_PRELUDE, job.extra_c, '\n'.join(stubs), tr.globals_text,
              '\n'.join(protos_extra), '\n'.join(bodies), hbody]
     return '\n'.join(parts), fi, contract, repl, inlined
+
+
+def scalar_path(tr, t):
+    """path of field selectors from a (nested single-member) struct down to its only scalar leaf"""
+    path = ''
+    while True:
+        rt = tr.mod.resolve(t)
+        if rt.k == 'struct' and len(rt.a) == 1:
+            path += '.f0'
+            t = rt.a[0]
+        elif rt.k == 'array' and rt.a == 1:
+            path += '.a[0]'
+            t = rt.b
+        else:
+            return path, rt
+
+
+def ret_expr(tr, fi):
+    """C expression for the scalar a function returns, whatever ABI coercion clang chose"""
+    t = tr.mod.resolve(fi['ret_t'])
+    if t.k == 'void':
+        # sret: result object behind the first parameter
+        if fi['nparams'] and tr.mod.resolve(fi['param_t'][0]).k == 'ptr':
+            path, leaf = scalar_path(tr, tr.mod.resolve(fi['param_t'][0]).a)
+            return '((*a0)%s)' % path
+        return '__CPROVER_return_value'
+    if t.k == 'struct' and len(t.a) == 2 and all(tr.mod.resolve(x).k == 'int' and tr.mod.resolve(x).a == 64 for x in t.a):
+        return '((((vp_u128)__CPROVER_return_value.f1) << 64) | (vp_u128)__CPROVER_return_value.f0)'
+    path, leaf = scalar_path(tr, fi['ret_t'])
+    return '(__CPROVER_return_value%s)' % path
 
 
 class RefusedError(Exception):
